@@ -49,6 +49,10 @@ def plan(tier: str, seed: int) -> list[dict]:
                 "weight": 1 + (bs * n >> 20),
             }
         )
+    if tier == "quick":
+        # blocks larger than the 1 MiB default (with unallocated and zero blocks, read in one piece) in the quick tier too
+        for j, bs in enumerate([2 << 20, 4 << 20, 8 << 20, 2 << 20]):
+            cases.append({"k": "rand", "bs": bs, "n": rng.randrange(3, 6), "i": 1000 + j, "placement": rng.choice(["rev", "shuffle"]), "weight": 8})
     for i in range(16 if tier == "quick" else 400):
         cases.append({"k": "twin", "bs": rng.choice([512, 4096, 65536]), "n": rng.randrange(2, 16), "i": i, "placement": "shuffle"})
     for i in range(24 if tier == "quick" else 3000):
